@@ -121,7 +121,7 @@ def write_replay(prop, prob):
 # process pool -------------------------------------------------------------
 # --------------------------------------------------------------------------
 
-_PMAP_CALLS = []       # parent-side registry: (func, items, nblocks, on_timeout) per pmap call, inherited by forked workers
+_PMAP_CALLS = []       # parent-side registry: (func, items, nblocks, on_timeout) per pmap call (used to re-run a block)
 
 
 class CaseTimeout(BaseException):
@@ -148,35 +148,60 @@ def _default_timeout_result(item, limit, timed_out=True):
     return a
 
 
+POOL_MODE = os.environ.get("VERIF_POOL", "forkserver")
+_PRELOAD = ["mc.core"]
+_CTX = None
+
+
+def set_preload(modules):
+    """modules the fork server imports once; must be called before the first pool is created"""
+    for m in modules:
+        if m not in _PRELOAD:
+            _PRELOAD.append(m)
+
+
+def _ctx():
+    """Every worker is forked from one *fork server* that is started once, before any exploration, imports the library and
+    the property module and then never runs anything itself.  All blocks - and all re-runs of blocks and single replays -
+    therefore start from the same process image, whatever the parent process has allocated or cached in the meantime, so
+    a block is a deterministic function of its list of cases (down to object addresses the library may remember)."""
+    global _CTX
+    if _CTX is None:
+        if POOL_MODE == "fork":
+            _CTX = mp.get_context("fork")
+        else:
+            _CTX = mp.get_context("forkserver")
+            _CTX.set_forkserver_preload(list(_PRELOAD))
+    return _CTX
+
+
 def _run_block(args):
-    """Run one block (a strided slice of the items) sequentially in this freshly forked process.
+    """Run one block (a strided slice of the items) sequentially in this fresh process.
     Cases inside a block share the interpreter state the library may keep between calls (module-level caches,
     mutated tables), deterministically: the same block always sees the same sequence of cases."""
     global CURRENT_PROV
     import signal
-    call_id, b, upto = args
-    func, items, nblocks, on_timeout = _PMAP_CALLS[call_id]
-    idxs = list(range(b, len(items), nblocks))
-    if upto is not None:
-        idxs = idxs[:upto + 1]
-    limit = _item_limit()
+    func, call_id, b, pairs, limit, upto = args
 
     def _alarm(signum, frame):
         raise CaseTimeout()
     signal.signal(signal.SIGALRM, _alarm)
     out = []
-    for pos, i in enumerate(idxs):
+    for pos, (i, item) in enumerate(pairs):
+        if upto is not None and pos > upto:
+            break           # (a re-run receives the very same task as the original run - same unpickled objects, same heap -
+            #                  and only stops early)
         CURRENT_PROV = (call_id, b, pos)
         try:
             reset_store()
             signal.setitimer(signal.ITIMER_REAL, limit)
             try:
-                r = func(items[i])
+                r = func(item)
             finally:
                 signal.setitimer(signal.ITIMER_REAL, 0)
             out.append((i, "ok", r))
         except CaseTimeout:
-            out.append((i, "timeout", (on_timeout or _default_timeout_result)(items[i], limit)))
+            out.append((i, "timeout", None))
             break           # one non-terminating call refutes the property; do not wait for the others of this block
         except BaseException:  # noqa
             out.append((i, "err", traceback.format_exc()))
@@ -185,10 +210,16 @@ def _run_block(args):
     return out
 
 
+def _block_task(call_id, b, upto=None):
+    func, items, nblocks, _on_timeout = _PMAP_CALLS[call_id]
+    idxs = list(range(b, len(items), nblocks))
+    return (func, call_id, b, [(i, items[i]) for i in idxs], _item_limit(), upto)
+
+
 def pmap(func, items, jobs=None, chunksize=None, on_timeout=None):
-    """Run func over items in deterministic strided blocks, each block in its own freshly forked process.
-    func must be a module-level function.  Results are returned in item order.  A crash inside the harness
-    itself (not a property violation) aborts the run with exit code 2."""
+    """Run func over items in deterministic strided blocks, each block in its own fresh process (see _ctx).
+    func must be a module-level function and the items picklable.  Results are returned in item order.  A crash inside
+    the harness itself (not a property violation) aborts the run with exit code 2."""
     items = list(items)
     jobs = jobs or NCPU
     if not items:
@@ -196,11 +227,11 @@ def pmap(func, items, jobs=None, chunksize=None, on_timeout=None):
     nblocks = max(1, min(len(items), jobs * 4))
     call_id = len(_PMAP_CALLS)
     _PMAP_CALLS.append((func, items, nblocks, on_timeout))
-    tasks = [(call_id, b, None) for b in range(nblocks)]
-    ctx = mp.get_context("fork")
+    tasks = (_block_task(call_id, b) for b in range(nblocks))
     res = [None] * len(items)
     timed_out = False
-    pool = ctx.Pool(min(jobs, nblocks), maxtasksperchild=1)
+    f_to = on_timeout or _default_timeout_result
+    pool = _ctx().Pool(min(jobs, nblocks), maxtasksperchild=1)
     try:
         for blk in pool.imap_unordered(_run_block, tasks, 1):
             for i, st, v in blk:
@@ -208,19 +239,19 @@ def pmap(func, items, jobs=None, chunksize=None, on_timeout=None):
                     sys.stderr.write("HARNESS-ERROR: worker crashed:\n" + v + "\n")
                     pool.terminate()
                     sys.exit(2)
-                res[i] = v
                 if st == "timeout":
                     timed_out = True
+                    v = f_to(items[i], _item_limit())
+                res[i] = v
             if timed_out:
                 break               # stop the remaining blocks: the run already has its counterexample
     finally:
         pool.terminate()
         pool.join()
     if timed_out or any(r is None for r in res):
-        f = on_timeout or _default_timeout_result
         for i in range(len(items)):
             if res[i] is None:
-                res[i] = f(items[i], _item_limit(), False)
+                res[i] = f_to(items[i], _item_limit(), False)
     return res
 
 
@@ -231,19 +262,19 @@ def _isolated(args):
 
 
 def run_isolated(func, arg):
-    """Run func(arg) in a freshly forked child, so that nothing the library keeps between calls leaks into or
+    """Run func(arg) in a fresh process, so that nothing the library keeps between calls leaks into or
     out of the parent process (the parent never executes library code after the exploration started)."""
-    ctx = mp.get_context("fork")
-    with ctx.Pool(1, maxtasksperchild=1) as pool:
+    with _ctx().Pool(1, maxtasksperchild=1) as pool:
         return pool.map(_isolated, [(func, arg)], 1)[0]
 
 
 def rerun_block(prov):
     """Re-execute, in a fresh process, the block that produced a problem, up to and including its case."""
     call_id, b, pos = prov
-    ctx = mp.get_context("fork")
-    with ctx.Pool(1, maxtasksperchild=1) as pool:
-        out = pool.map(_run_block, [(call_id, b, pos)], 1)[0]
+    with _ctx().Pool(1, maxtasksperchild=1) as pool:
+        # (same pool call as in pmap: the worker must execute exactly what the original worker executed, allocation for
+        # allocation, or the collector runs at other moments and objects land on other addresses)
+        out = list(pool.imap_unordered(_run_block, iter([_block_task(call_id, b, pos)]), 1))[0]
     return [v for _, st, v in out if st == "ok"]
 
 
